@@ -22,8 +22,8 @@ EXPLANATION = (
     'solver-enumerated bounded family (CrossHair + z3 enumerate and certify coverage of the selector space; the code '
     'generator needs concrete text, so the body runs on realised selectors under NoTracing): the (old, new) pairs of '
     'C10 (two of 14 edit kinds on a deep copy / a shallow copy sharing objects with old / an unrelated member) are '
-    'diffed with build_diff, and ten hand-assembled diff templates exercise references among new shared values '
-    '(forward and backward), from shared values into old paths, into moved and into replaced / deleted parts of old, '
+    'diffed with build_diff, and eleven hand-assembled diff templates exercise references among new shared values '
+    '(forward and backward, to whole shared values and to parts of them), from shared values into old paths, into moved and into replaced / deleted parts of old, '
     'swaps, and callable changes combined with tag operations; for every diff, both variable-naming modes and old '
     'supplied or not, the emitted fiddler is compiled and run on a deep copy of old and compared canonically with '
     'apply_diff on another deep copy (or both fail)')
@@ -114,7 +114,8 @@ TEMPLATES = ['shared value refers to an old path that is replaced', 'forward ref
              'backward reference among shared values', 'swap two children by reference', 'salvage a child of a deleted subtree',
              'salvage a child of a replaced subtree into a new Config', 'callable change + tag on a parameter of the new callable',
              'shared Config holding a shared list (name order differs from dependency order)',
-             'chain of references among shared values 0 -> 2 -> 1', 'old object with two parents: slot replaced through one, child salvaged through the other']
+             'chain of references among shared values 0 -> 2 -> 1', 'old object with two parents: slot replaced through one, child salvaged through the other',
+             'references into a part of a new shared value (child of a shared Config, element of a shared list)']
 
 
 def _template(k):
@@ -148,6 +149,11 @@ def _template(k):
   elif k == 8:
     d = diffing.Diff(changes=(diffing.SetValue((A('z'),), _ref_new(0)), diffing.ModifyValue((A('y'),), [_ref_new(2), _ref_new(1)])),
                      new_shared_values=([_ref_new(2), 0], {'k': 1}, fdl.Config(fam.g4, x=_ref_new(1), y=_ref_new(1))))
+  elif k == 10:
+    # build_diff only ever refers to a whole shared value; apply_diff resolves any path below it (C13-m8)
+    d = diffing.Diff(changes=(diffing.SetValue((A('z'),), _ref_new(0, A('x'))), diffing.ModifyValue((A('y'),), [_ref_new(1, daglish.Index(1)), _ref_new(0)]),
+                              diffing.ModifyValue((A('x'), A('y')), _ref_new(1))),
+                     new_shared_values=(fdl.Config(fam.g4, x=fdl.Config(fam.g0, x=3), y=_ref_new(1, daglish.Index(1))), [0, [4]]))
   else:
     # `mid` is reachable as .x and as .y: its slot x is replaced through .x, its old child is salvaged through .y
     old = fdl.Config(fam.g2, x=mid, y=mid, z=[1])
@@ -159,10 +165,10 @@ def _template(k):
 def c13_templates(k: int, naming: int, give_old: bool) -> bool:
   """
   Hand-assembled diffs (references among new shared values, into moved and replaced parts of old).
-  require: 0 <= k <= 9 and 0 <= naming <= 1
+  require: 0 <= k <= 10 and 0 <= naming <= 1
   """
   import crosshair
-  k, naming, give_old = _conc(k, 0, 9), _conc(naming, 0, 1), bool(give_old)
+  k, naming, give_old = _conc(k, 0, 10), _conc(naming, 0, 1), bool(give_old)
   with crosshair.NoTracing():
     old, d = _template(k)
     note('c13t', k, naming, give_old)
@@ -189,6 +195,6 @@ def obligations(tier, seed):
                  smoke=dict(mode=0, e1=0, e2=9, i1=1, i2=2, w=1, t1x=0, t2x=1, t2y=0, naming=0, give_old=True),
                  extra_smokes=[dict(mode=e % 3, e1=e, e2=(e + 5) % 16, i1=e % 3, i2=(e + 1) % 3, w=e % 6, t1x=0, t2x=1, t2y=0,
                                     naming=e % 2, give_old=bool(e % 3)) for e in range(16)]),
-      Obligation('c13_templates', c13_templates, [Cube(f'k{k}', [], dict(k=k)) for k in range(10)], timeout=120,
+      Obligation('c13_templates', c13_templates, [Cube(f'k{k}', [], dict(k=k)) for k in range(11)], timeout=120,
                  enumerated=True, smoke=dict(k=3, naming=0, give_old=True)),
   ]
